@@ -311,6 +311,10 @@ for (cap, cols, pre, actual) in ((0, 1, 0, 1), (0, 1, 0, 3), (1, 1, 30, 0), (1, 
     UC("c08-vec-extend-get-cap%d-cols%d-pre%d-act%d" % (cap, cols, pre, actual), "boxcar", "vec_extend_get::<%d,%d,%d,%d>()" % (cap, cols, pre, actual), {"C08": "quick"}, "bounded", VEC_FNS,
        "[reserve PRE unfilled]; extend(reports 3, yields %d); push; get: indices reserved as reported, filled as yielded, unfilled read as nothing, next push continues gap-free (batch crosses a bucket boundary for PRE=30/94)" % actual,
        unwind=70 if pre < 90 else 135, bound="batch of 3 (yielding %d) starting at index %d, capacity %d, %d column(s); single thread" % (actual, pre, cap, cols), cost=8, timeout=1500)
+for (pre, act) in ((0, 2), (30, 3)):
+    UC("c08-vec-snapshot-iter-pre%d-act%d" % (pre, act), "boxcar", "vec_snapshot_iter_agrees::<%d,%d>()" % (pre, act), {"C08": "quick"}, "bounded", ["boxcar::Vec::snapshot", "boxcar::Iter::next", "boxcar::Vec::get"],
+       "[reserve PRE unfilled]; extend(reports 3, yields %d); push; snapshot(PRE): the iterator yields every index below count once, in order (across the bucket boundary for PRE=30), with an item exactly where get returns one" % act,
+       unwind=70, bound="4 indices starting at %d; single thread" % pre, cost=7, timeout=1500)
 for rep in (1, 2):
     UC("c08-vec-extend-overreport-%d" % rep, "boxcar", "vec_extend_overreport_panics::<%d>()" % rep, {"C08": "quick"}, "bounded", VEC_FNS[:3],
        "extend with an ExactSizeIterator that reports %d item(s) but yields %d panics (the lie is caught) instead of writing to an index it never reserved" % (rep, rep + 1),
